@@ -173,6 +173,72 @@ func pairEvents(prop string, k int, v *Variant, a, b []*Output, emit func(J)) {
 	}
 }
 
+// withInjections is withInjection for several gaps at once: at[gap] = ops injected before base op `gap`.
+func withInjections(base *Scenario, desc string, at map[int][]Op) *Variant {
+	v := &Variant{Desc: desc, Sc: &Scenario{Genesis: base.Genesis, NAccts: base.NAccts}}
+	for i := 0; i <= len(base.Ops); i++ {
+		for _, op := range at[i] {
+			op.Only = "B"
+			v.Sc.Ops = append(v.Sc.Ops, op)
+			v.Map = append(v.Map, -1)
+		}
+		if i < len(base.Ops) {
+			v.Sc.Ops = append(v.Sc.Ops, base.Ops[i])
+			v.Map = append(v.Map, i)
+		}
+	}
+	return v
+}
+
+// mempoolSessions: for every transaction of a block, mempool traffic that follows it through the block - the same
+// transaction checked before the block starts (the mempool has seen it), and, right after it was delivered, a check of
+// the sender's NEXT transaction, or of a transfer TO the sender: the mempool and the block then work on the same
+// account / delegatee / proposal at the same time.
+func mempoolSessions(base *Scenario, begin, end int, b *Builder, view *View, h int64) []*Variant {
+	var out []*Variant
+	kr := b.KR
+	chain := base.Genesis.ChainID
+	price := u256(govLimbs(view.Gov, "gasPrice"))
+	gas := govLimbs(view.Gov, "minTrxGas").Uint64()
+	for i := begin + 1; i < end && i < len(base.Ops); i++ {
+		op := base.Ops[i]
+		if op.Kind != "deliver" {
+			continue
+		}
+		tx := &rctypes.Trx{}
+		bad := false
+		if pm := Call(func() {
+			if e := tx.Decode(unhex(op.Tx)); e != nil {
+				bad = true
+			}
+		}); pm != "" || bad {
+			continue
+		}
+		from := kr.Index(tx.From)
+		if from <= 0 {
+			continue
+		}
+		seen := Op{Kind: "check", Tx: op.Tx, Tag: "session:block-tx-seen-before"}
+		next := Op{Kind: "check", Tx: HexTx(b.Sign(newTransfer(kr, from, 6, tx.Nonce+1, gas, price, "1e15"), from, chain)), Tag: "session:sender-next"}
+		other := 4
+		if from == 4 {
+			other = 5
+		}
+		ononce := uint64(view.Accts[fmt.Sprintf("a%d", other)].Nonce)
+		toSender := Op{Kind: "check", Tx: HexTx(b.Sign(newTransfer(kr, other, from, ononce, gas, price, "1e15"), other, chain)), Tag: "session:transfer-to-sender"}
+		mkv := func(desc string, at map[int][]Op) {
+			v := withInjections(base, fmt.Sprintf("block %d: session %s around op %d", h, desc, i), at)
+			v.Class, v.Hot, v.Edge, v.Block = "session:"+desc, 3, true, h
+			out = append(out, v)
+		}
+		mkv("seen-before + sender's next after delivery", map[int][]Op{begin: {seen}, i + 1: {next}})
+		mkv("seen-before + transfer to the sender after delivery", map[int][]Op{begin: {seen}, i + 1: {toSender}})
+		mkv("seen in block + sender's next before commit", map[int][]Op{begin + 1: {seen}, end: {next}})
+		mkv("sender's next after delivery only", map[int][]Op{i + 1: {next}})
+	}
+	return out
+}
+
 // VariantFile is a self-contained replay of one (history, variant) pair: the base history replica A
 // executes, the variant replica B executes, and the correspondence of their ops.
 type VariantFile struct {
@@ -549,6 +615,7 @@ func IsolationVariants(base *Scenario, rootA string, rng *rand.Rand, budget int,
 				_ = pi
 			}
 		}
+		out = append(out, mempoolSessions(base, i, end, b, view, h)...)
 		if full && len(pool) > 1 {
 			// ordered pairs at one gap
 			for n := 0; n < 20; n++ {
@@ -592,10 +659,12 @@ func IsolationVariants(base *Scenario, rootA string, rng *rand.Rand, budget int,
 			}
 			return sel
 		}
-		var top, hot, cold []*Variant
+		var top, hot, cold, sess []*Variant
 		seenTop := map[string]bool{}
 		for _, v := range out {
 			switch {
+			case v.Hot == 3:
+				sess = append(sess, v)
 			case v.Hot == 2 && v.Edge:
 				// parameter hand-over: every category of call at every phase boundary of that block and the next
 				k := fmt.Sprintf("%s#%d", v.Class, v.Block)
@@ -611,7 +680,9 @@ func IsolationVariants(base *Scenario, rootA string, rng *rand.Rand, budget int,
 				cold = append(cold, v)
 			}
 		}
-		sel := pick(top, budget/2)
+		// mempool sessions around the block's own transactions: a fifth of the budget
+		sel := pick(sess, budget/5)
+		sel = append(sel, pick(top, budget/2)...)
 		// then up to two thirds of the budget for the blocks that stage something, the rest elsewhere
 		sel = append(sel, pick(hot, budget*2/3-len(sel)/2)...)
 		if len(sel) > budget {
